@@ -28,7 +28,7 @@ def _frame(ftype, n, xk):
     return struct.pack('>d', x) + struct.pack('>HH', 100 + n, 200 + n), x
 
 
-def _build(order, private_table, second_lf, vr_each, xk):
+def _build(order, private_table, second_lf, vr_each, xk, gap=False):
     """Returns (file bytes, layout, model) with model = list per logical file of dict(tables=[(lr type, set type, n objects, record index)],
     frames={frame name: [(frame number, x, record index)]})."""
     recs = []
@@ -55,6 +55,8 @@ def _build(order, private_table, second_lf, vr_each, xk):
         counts = [0, 0]
         for t in (order if lf == 0 else [0, 0]):
             counts[t] += 1
+            if gap and counts[t] == 3:
+                counts[t] = 7         # frame numbers with a gap (1, 2, 7, 8, ...): the index records the numbers the file gives, whatever they are
             data, x = _frame(t, counts[t], xk)
             name = b'FA' if t == 0 else b'FB'
             m['frames'][name].append((counts[t], x, len(recs)))
@@ -121,10 +123,10 @@ def _floats_equal(got, want):
 ORDERS = [[0], [0, 0, 0], [0, 1, 0, 1, 0], [1, 0, 0, 1, 0, 0], [0, 0, 0, 0, 0]]
 
 
-def _index_xml(order, private_table, second_lf, vr_each, xk, private):
+def _index_xml(order, private_table, second_lf, vr_each, xk, private, gap=False):
     from TotalDepth.RP66V1 import IndexXML
     from TotalDepth.RP66V1.core import LogicalFile
-    data, layout, model = _build(ORDERS[order], private_table, second_lf, vr_each, xk)
+    data, layout, model = _build(ORDERS[order], private_table, second_lf, vr_each, xk, gap)
     tmp = tempfile.mkdtemp(prefix='verif_c18_')
     try:
         path = os.path.join(tmp, 'in.dlis')
@@ -192,13 +194,13 @@ def _index_xml(order, private_table, second_lf, vr_each, xk, private):
         shutil.rmtree(tmp, ignore_errors=True)
 
 
-def index_xml(order: int, private_table: bool, second_lf: bool, vr_each: bool, xk: int, private: bool) -> bool:
+def index_xml(order: int, private_table: bool, second_lf: bool, vr_each: bool, xk: int, private: bool, gap: bool = False) -> bool:
     """
     pre: 0 <= order <= 4 and 0 <= xk <= 2
     pre: PART < 0 or order * 3 + xk == PART
     post: _
     """
     order, xk = mark.pick(order, 0, 4), mark.pick(xk, 0, 2)
-    private_table, second_lf, vr_each, private = mark.pickb(private_table), mark.pickb(second_lf), mark.pickb(vr_each), mark.pickb(private)
+    private_table, second_lf, vr_each, private, gap = mark.pickb(private_table), mark.pickb(second_lf), mark.pickb(vr_each), mark.pickb(private), mark.pickb(gap)
     with mark.untraced():
-        return _index_xml(order, private_table, second_lf, vr_each, xk, private)
+        return _index_xml(order, private_table, second_lf, vr_each, xk, private, gap)
